@@ -36,6 +36,7 @@ structure St where
   d17Keys : List String := []                -- keys sharing a bucket with a key that has two overlapping mutators in the last schedule
   bits : Nat := 24
   relocWindowMutator : Bool := false         -- D32 recogniser of the last schedule
+  d17Off : Bool := false      -- the last schedule's overlapping mutators were on keys alone in their buckets and the section model did not predict the outcome
 deriving Repr
 
 def digestOf (khex : String) : Bytes := (mhDecode ((fromHex khex).getD [])).getD []
@@ -516,7 +517,21 @@ def step (st : St) (l : Line) : St × List Msg :=
     let overlapKeys := dataKeys.filter fun k => started.any fun a => started.any fun b =>
       !(a.thread == b.thread && a.idx == b.idx) && isMutator a.op && isMutator b.op && keyOfOp a.op == k && keyOfOp b.op == k && overlap a b
     let bucketOf := fun (k : String) => bucketOfKey st.bits (digestOf k)
-    let d17Keys := dataKeys.filter fun k => overlapKeys.any fun k' => bucketOf k' == bucketOf k
+    -- the section-level model run on the same schedule (see (4) below)
+    let concSim : Option CSim :=
+      if l.args.get "locks" = "1" ∨ st.profile = "c12" ∨ evs.any (fun e => (e.splitOn ":blocked:").length > 1) then none else
+      (concInit st.imm st.spec st.programs (evs.any (·.startsWith "window:open"))).map fun c0 => evs.foldl concEvent c0
+    -- D17 is WHAT THE CODE DOES when mutators of one key overlap, and the section model reproduces it (Update error, lost Put,
+    -- double free, the loser's Remove reporting false) - exactly, as long as the late Update / Remove cannot hit a neighbour,
+    -- i.e. when the contended key is ALONE in its bucket. There the finding excuses only what the model predicts: if the real
+    -- calls returned something else (say, two overlapping Removes both reporting true), that is a different violation.
+    let alone := fun (k : String) =>
+      !(dataKeys.any fun k' => k' != k && bucketOf k' == bucketOf k) &&
+      !(st.spec.any fun (g, _) => g != digestOf k && bucketOfKey st.bits g == bucketOf k)
+    let soloOverlap := !overlapKeys.isEmpty && overlapKeys.all alone
+    let d17Unpredicted := soloOverlap && (match concSim with | some c => !c.bad.isEmpty | none => false)
+    let mutOverlap := mutOverlap && !d17Unpredicted
+    let d17Keys := if d17Unpredicted then [] else dataKeys.filter fun k => overlapKeys.any fun k' => bucketOf k' == bucketOf k
     let knownFor := fun (k : String) => if d17Keys.contains k then " [known:D17 overlapping-mutators-of-one-key]"
                  else if gcOverlap then " [known:D18 collector-invalidates-held-position]" else ""
     let known := if gcOverlap then " [known:D18 collector-invalidates-held-position]" else if mutOverlap then " [known:D17 overlapping-mutators-of-one-key]" else ""
@@ -554,14 +569,14 @@ def step (st : St) (l : Line) : St × List Msg :=
     let (concMsgs, concFinal) : List Msg × Option Conc.State :=
       -- a thread that blocked (on a lock held by a parked thread) later runs truly in parallel with the scheduled one: the log
       -- order no longer determines the order of the sections
-      if l.args.get "locks" = "1" ∨ st.profile = "c12" ∨ evs.any (fun e => (e.splitOn ":blocked:").length > 1) then ([], none) else
-      match concInit st.imm st.spec st.programs (evs.any (·.startsWith "window:open")) with
+      match concSim with
       | none => ([], none)
-      | some c0 =>
-        let c := evs.foldl concEvent c0
+      | some c =>
         -- outside the model's premise (overlapping mutators of one key) its exact-key index does not show the damage a late
         -- Update / Remove can do to a neighbour with a matching stored prefix: a difference there is a flag, not a disagreement
-        ((c.bad.take 3).map (fun b => if overlapKeys.isEmpty then Msg.corr s!"section model: {b}" else Msg.flag "conc-model-differs-under-d17") ++
+        -- (unless the contended keys are alone in their buckets: no neighbour, the model is exact)
+        ((c.bad.take 3).map (fun b => if overlapKeys.isEmpty ∨ soloOverlap then Msg.corr s!"section model: {b}" else Msg.flag "conc-model-differs-under-d17") ++
+        (if soloOverlap ∧ c.bad.isEmpty ∧ c.steps > 0 then [Msg.flag "conc-model-exact-under-d17"] else []) ++
         (if c.bad.isEmpty ∧ c.steps > 0 then [Msg.flag "conc-model-agrees"] else []) ++
         (if c.bad.isEmpty ∧ c.steps > 0 ∧ evs.any (·.startsWith "window:open") then [Msg.flag "conc-model-agrees-around-collector"] else []) ++
         (if c.predictedErr then [Msg.flag "conc-model-predicts-update-error"] else []) ++
@@ -665,7 +680,7 @@ def step (st : St) (l : Line) : St × List Msg :=
             (inReloc, hit || (inReloc && isMutator op && (res == "ok" || res == "true")))
           | _ => (inReloc, hit)) (false, false)).2
     ({ st with lastHist := hist, finalSpecs := finals, concFinal := concFinal, lastGcOverlap := gcOverlap, keyFinals := keyFinals, d17Keys := d17Keys,
-               relocWindowMutator := relocWindowMutator },
+               relocWindowMutator := relocWindowMutator, d17Off := d17Unpredicted },
       pErr ++ pLin ++ pWait ++ pStuck ++ flags)
   | "sfinal" =>
     let ra := resArgs l.res
@@ -680,7 +695,7 @@ def step (st : St) (l : Line) : St × List Msg :=
       | none => (match sget st.spec (digestOf k) with | some v => "v" ++ toHex v | none => "absent") ≠ r
     let okFinal := badKeys.isEmpty
     let hist := st.lastHist.filter (·.inv < 1000000)
-    let mutOverlap := hist.any fun a => hist.any fun b =>
+    let mutOverlap := !st.d17Off && hist.any fun a => hist.any fun b =>
       !(a.thread == b.thread && a.idx == b.idx) && isMutator a.op && isMutator b.op && keyOfOp a.op == keyOfOp b.op && overlap a b
     -- the same recognisers as for the schedule itself: a key dropped because a collector invalidated a held location (D18b)
     -- shows only in the contents read afterwards
@@ -697,6 +712,8 @@ def step (st : St) (l : Line) : St × List Msg :=
       let live := lst "live"
       let orphans := live.filter fun x => !cur.contains x
       (orphans.filter (fun x => !fl.contains x)).map (fun x => Msg.prop s!"location {x} is no longer current, still marked in use, and not on the freelist (lost freelist entry){known}") ++
+      -- the same fact as C11 reads it: nothing will ever present this record to the collector, so the file that holds it is never released
+      (orphans.filter (fun x => !fl.contains x)).map (fun x => Msg.prop s!"[C11] the superseded record at {x} is marked in use and on no freelist: no number of GC cycles releases its file{known}") ++
       (fl.filter (fun x => cur.contains x)).map (fun x => Msg.prop s!"location {x} is still current and on the freelist{known}") ++
       (if fl.eraseDups.length = fl.length then [] else [Msg.prop (s!"a location is on the freelist twice: {fl.filter (fun x => (fl.filter (· = x)).length > 1) |>.eraseDups}{known}" ++
           (if known = "" ∧ st.relocWindowMutator then " [known:D32 relocation-refused-frees-old-again]" else ""))]) ++
